@@ -124,3 +124,15 @@ func specSubSat(cur uint64, n int) uint64 {
 //@ func sortChunksBySSN
 //@   safety C01
 //@   ensures#messages-in-ssn-order{C01} forall i int :: 0 <= i && i < len(a)-1 ==> !sna16LT(a[i+1].ssn, a[i].ssn)
+
+// ---- isReadable says "readable" exactly when read() can deliver: an unordered message, or a complete head of the ordered
+// ---- queue that is not after the cursor — in particular a complete message a FORWARD-TSN has skipped past (ssn before
+// ---- the cursor) stays readable and cannot block the ones behind it ----
+
+//@ func reassemblyQueue.isReadable
+//@   assume#no-nil-entries (len(r.ordered) > 0 ==> r.ordered[0] != nil) && (len(r.orderedMID) > 0 ==> r.orderedMID[0] != nil)
+//@   ensures#readable-exactly-when-a-read-can-deliver{C07,C01,C06} !r.useInterleaving ==> result == (len(r.unordered) > 0 ||
+//@      (len(r.ordered) > 0 && !specSerGT16(r.ordered[0].ssn, r.nextSSN) && lastBool("chunkSet.isComplete")))
+//@   ensures#readable-exactly-when-a-read-can-deliver-mid{C07,C01,C06,C17} r.useInterleaving ==> result == (len(r.unorderedMID) > 0 ||
+//@      (len(r.orderedMID) > 0 && !specSerGT32(r.orderedMID[0].mid, r.nextMID) && lastBool("chunkSetMID.isComplete")))
+//@   modifies nothing
